@@ -322,10 +322,22 @@ Fixpoint set_nth {A} (l : list A) (j : nat) (x : A) : list A :=
   | y :: t, S j' => y :: set_nth t j' x
   end.
 
+(* the key parts that are not selected get their default names key_<i> after the select list, through the same
+   counter (before that `fix:` they kept the raw key_<i>, which could repeat a selected column's name) *)
+Fixpoint name_rest (pn : bool) (c : counter) (keynames : list name) (selidx js : list nat) : outcome (list name) :=
+  match js with
+  | [] => Ok keynames
+  | j :: t =>
+      if existsb (Nat.eqb j) selidx then name_rest pn c keynames selidx t
+      else obind (uniq pn c (None, key_name j)) (fun fc =>
+           name_rest pn (snd fc) (set_nth keynames j (snd (fst fc))) selidx t)
+  end.
+
 Fixpoint group_names (pn : bool) (items : list item) (keys : list expr) (c : counter)
-         (keynames aggnames sel : list name) : outcome (list name * list name * list name) :=
+         (keynames aggnames sel : list name) (selidx : list nat) : outcome (list name * list name * list name) :=
   match items with
-  | [] => Ok (keynames, aggnames, sel)
+  | [] => obind (if pn then Ok keynames else name_rest pn c keynames selidx (seq 0 (length keys)))
+                (fun kn => Ok (kn, aggnames, sel))
   | IStar :: _ | IQStar _ :: _ => Err e_star_group
   | IExpr e alias :: rest =>
       match find_key e keys 0 with
@@ -339,7 +351,7 @@ Fixpoint group_names (pn : bool) (items : list item) (keys : list expr) (c : cou
                                 end
                       end in
           obind (uniq pn c (None, base)) (fun fc =>
-          group_names pn rest keys (snd fc) (set_nth keynames j (snd (fst fc))) aggnames (sel ++ [snd (fst fc)]))
+          group_names pn rest keys (snd fc) (set_nth keynames j (snd (fst fc))) aggnames (sel ++ [snd (fst fc)]) (j :: selidx))
       end
   | IAgg f d arg alias :: rest =>
       let base := match alias with
@@ -350,12 +362,12 @@ Fixpoint group_names (pn : bool) (items : list item) (keys : list expr) (c : cou
                             end
                   end in
       obind (uniq pn c (None, base)) (fun fc =>
-      group_names pn rest keys (snd fc) keynames (aggnames ++ [snd (fst fc)]) (sel ++ [snd (fst fc)]))
+      group_names pn rest keys (snd fc) keynames (aggnames ++ [snd (fst fc)]) (sel ++ [snd (fst fc)]) selidx)
   end.
 
 Definition group_info (pn : bool) (items : list item) (keys : list expr) : outcome ginfo :=
   obind (group_cols items keys 0) (fun cols =>
-  obind (group_names pn items keys [] (map key_name (seq 0 (length keys))) [] []) (fun r =>
+  obind (group_names pn items keys [] (map key_name (seq 0 (length keys))) [] [] []) (fun r =>
   let '(kn, an, sel) := r in Ok (mkginfo cols kn an sel))).
 
 Definition unq (names : list name) : schema := map (fun n => (None, n)) names.
